@@ -61,6 +61,8 @@ FIXED = [
 ]
 
 KNOWN = [
+    ('C18', 'xml/empty-string-is-null/populated-string-keeps-prior-text',
+     'XML: an empty string is written as an empty element, which the reader treats as null = "not loaded" (pugixml_archive.h LoadValue: "Empty node is treated as Null"); loading <root><value/></root> into a vector<string>{"old"} or a class member holding "old" keeps "old" while a fresh target gets "". By design of the XML mapping (null and "" share one representation); changing it would alter the null semantics relied upon by optional/pointer members, so it is recorded, not repaired'),
     ('C10', 'json/invalid-utf8-accepted-from-memory-rejected-from-stream',
      'JSON with ill-formed UTF-8 inside a string (e.g. ["a\\xC0\\x80b"]) is accepted by the memory entry point (bytes copied as is, or UtfEncodingError / policy Skip applied later when the target is a wide string) but rejected with ParsingException by the stream entry point, whose AutoUTF transcoder validates; validating in memory too (kParseValidateEncodingFlag) breaks upstream test RapidJsonArchive.ShouldSkipInvalidUtfWhenPolicyIsSkip'),
     ('C10', 'json/memory-accepts-partial-utf8-bom',
